@@ -82,7 +82,7 @@ Section MainC.
         unfold viewB. cbn [bvs aux_push aux_arr]. rewrite fn_same, Hv. generalize (snd (rt_push c r p g)) as ok. clear g a tr Hv. intros ok.
         apply dsafeB_xbind. destruct ok.
         * apply dsafeB_ret. cbn beta iota. apply dsafeB_rsp_ret. split; [unfold idle; cbn; tauto|]. intros r' E'. rewrite E in E'. inversion E'; subst. exact Ht.
-        * apply scan_spec; auto; cbn; auto; try congruence.
+        * apply scan_spec; auto; cbn [vb_own vb_dead vb_move vb_full vb_freed vb_blk set_full set_pend]; auto; try congruence.
           all: try solve [intros; exact I].
           apply dsafeB_rsp_ret. split; [unfold idle; cbn; tauto|]. intros r' E'. rewrite E in E'. inversion E'; subst. exact Ht.
       + apply dsafeB_xemit. intros g a tr Hv. exists a. split; [apply frame_refl|]. split.
